@@ -125,10 +125,13 @@ func genC18(dir, tier string, seed int64) {
 	cw.close()
 
 	// ---- unknown operator types through the REAL registry ----
-	unk := goOnlyResult{Stream: "C18_unknown_operator", Rule: "real graphs x -> Abs -> <type> -> Abs through opset13.GetOperator (the node of that type at each of the three positions on the path to the output, on a side branch whose result is never read -- first or last in the node list -- and as a node without outputs): for every unregistered type string (case/affix perturbations of registered names, ONNX operators that are not implemented, odd strings) Run must fail with errors.Is(err, ops.ErrUnsupportedOperator) and return no outputs; the same graph with a registered unary type must succeed", Violations: []string{}}
+	unk := goOnlyResult{Stream: "C18_unknown_operator", Rule: "real graphs x -> Abs -> <type> -> Abs through opset13.GetOperator (the node of that type at each of the three positions on the path to the output, on a side branch whose result is never read -- first or last in the node list -- and as a node without outputs; as a node whose output name is already bound by an initializer, by a tensor the caller passes, or by an earlier node): for every unregistered type string (case/affix perturbations of registered names, ONNX operators that are not implemented, odd strings) Run must fail with errors.Is(err, ops.ErrUnsupportedOperator) and return no outputs; the same graph with a registered unary type must succeed", Violations: []string{}}
 	names := []string{"abs", "ABS", "Abs ", " Abs", "Abs1", "Ab", "ai.onnx.Abs", "", "Pad", "Gelu", "MaxPool", "Identity", "Exp", "Neg", "LeakyRelu", "Erf", "Softplus", "relu", "Relu6", "Tanhh", "nil", "13", "Sigmoid\x00", "Cosine"}
 	for _, tname := range append(names, "Relu", "Tanh", "Sigmoid") {
-		for pos := 0; pos < 6; pos++ {
+		for pos := 0; pos < 9; pos++ {
+			if pos >= 6 && (tname == "Relu" || tname == "Tanh" || tname == "Sigmoid") {
+				continue // the last three positions re-bind a name: only meaningful for a type that must be refused
+			}
 			if pos == 5 && (tname == "Relu" || tname == "Tanh" || tname == "Sigmoid") {
 				continue // a registered operator that yields one result cannot be a node without outputs
 			}
@@ -152,7 +155,15 @@ func genC18(dir, tier string, seed int64) {
 				g.Node = append(g.Node, &onnx.NodeProto{OpType: tname, Input: []string{"a"}, Output: []string{"unused"}})
 			case 5:
 				g.Node = append(g.Node[:1], append([]*onnx.NodeProto{{OpType: tname, Input: []string{"a"}}}, g.Node[1:]...)...)
+			case 6, 7: // the node's output name is already bound: by an initializer (6), by a tensor the caller passes (7)
+				g.Node[1].OpType = tname
+				if pos == 6 {
+					g.Initializer = append(g.Initializer, &onnx.TensorProto{Name: "b", Dims: []int64{3}, DataType: 1, FloatData: []float32{7, 8, 9}})
+				}
+			case 8: // ... by an earlier node
+				g.Node = []*onnx.NodeProto{g.Node[0], g.Node[1], {OpType: tname, Input: []string{"a"}, Output: []string{"b"}}, g.Node[2]}
 			}
+			extra := pos == 7
 			b, _ := proto.Marshal(&onnx.ModelProto{OpsetImport: []*onnx.OperatorSetIdProto{{Version: 13}}, Graph: g})
 			func() {
 				defer func() {
@@ -165,7 +176,11 @@ func genC18(dir, tier string, seed int64) {
 					unk.Violations = append(unk.Violations, fmt.Sprintf("load failed for a graph with operator type %q: %v", tname, err))
 					return
 				}
-				out, err := m.Run(gonnx.Tensors{"x": tensor.New(tensor.WithShape(3), tensor.WithBacking([]float32{-1, 2, -3}))})
+				feed := gonnx.Tensors{"x": tensor.New(tensor.WithShape(3), tensor.WithBacking([]float32{-1, 2, -3}))}
+				if extra {
+					feed["b"] = tensor.New(tensor.WithShape(3), tensor.WithBacking([]float32{7, 8, 9}))
+				}
+				out, err := m.Run(feed)
 				registered := tname == "Relu" || tname == "Tanh" || tname == "Sigmoid"
 				switch {
 				case registered && (err != nil || out["y"] == nil):
